@@ -229,6 +229,30 @@ fn handle(req: &Value) -> Value {
             let rb = describe(rb);
             json!({"eval": ra, "step": rb, "differ": ra != rb})
         }
+        "source_map" => {
+            use tsrun::compiler::{BytecodeBuilder, Op};
+            let mut b = BytecodeBuilder::new();
+            let spans: Vec<tsrun::lexer::Span> = req["spans"].as_array().map(|a| a.iter().map(|s| tsrun::lexer::Span::new(
+                s["start"].as_u64().unwrap_or(0) as usize, s["end"].as_u64().unwrap_or(0) as usize,
+                s["line"].as_u64().unwrap_or(0) as u32, s["column"].as_u64().unwrap_or(0) as u32)).collect()).unwrap_or_default();
+            let mut si = 0usize;
+            let mut emitted = 0usize;
+            for c in req["ops"].as_str().unwrap_or("").chars() {
+                if c == 'S' {
+                    if let Some(sp) = spans.get(si) { b.set_span(*sp); }
+                    si += 1;
+                } else {
+                    b.emit(Op::Nop);
+                    emitted += 1;
+                }
+            }
+            let chunk = b.finish();
+            let lookups: Vec<Value> = (0..emitted).map(|k| match chunk.get_source_location(k) {
+                Some(sp) => json!({"start": sp.start, "end": sp.end, "line": sp.line, "column": sp.column}),
+                None => Value::Null,
+            }).collect();
+            json!({"lookups": lookups})
+        }
         "number_to_string" => {
             let bits = u64::from_str_radix(req["bits"].as_str().unwrap_or("0"), 16).unwrap_or(0);
             json!({"out": tsrun::value::number_to_string(f64::from_bits(bits)).to_string()})
